@@ -4,6 +4,7 @@ package main
 // Rendering is plumbing: no judgement about acceptance is made here.
 
 import (
+	"encoding/json"
 	"fmt"
 	"strconv"
 	"strings"
@@ -23,9 +24,33 @@ type Value struct {
 	Ps    []KV            `json:"ps,omitempty"`
 }
 
+// Key is an object key: a string in the C01 domain, a code-point sequence elsewhere.
+type Key string
+
+func (k *Key) UnmarshalJSON(b []byte) error {
+	if len(b) > 0 && b[0] == '"' {
+		var s string
+		if err := json.Unmarshal(b, &s); err != nil {
+			return err
+		}
+		*k = Key(s)
+		return nil
+	}
+	var cp []int
+	if err := json.Unmarshal(b, &cp); err != nil {
+		return err
+	}
+	r := make([]rune, len(cp))
+	for i, c := range cp {
+		r[i] = rune(c)
+	}
+	*k = Key(string(r))
+	return nil
+}
+
 type KV struct {
-	K string `json:"k"`
-	V Value  `json:"v"`
+	K Key   `json:"k"`
+	V Value `json:"v"`
 }
 
 type RV struct {
@@ -46,8 +71,9 @@ type Rule struct {
 }
 
 type Prop struct {
-	K  string `json:"k"`
+	K  Key    `json:"k"`
 	Sc bool   `json:"sc"`
+	Kt string `json:"kt,omitempty"` // key shortcut: the user type's name
 	N  Node   `json:"n"`
 }
 
@@ -191,7 +217,7 @@ func (v Value) JSON() string {
 	case "obj":
 		parts := make([]string, len(v.Ps))
 		for i, p := range v.Ps {
-			parts[i] = quoteKey(p.K) + ":" + p.V.JSON()
+			parts[i] = quoteKey(string(p.K)) + ":" + p.V.JSON()
 		}
 		return "{" + strings.Join(parts, ",") + "}"
 	}
@@ -210,7 +236,7 @@ func (r RV) text() string {
 		return string(intsToBytes(r.B))
 	case "re":
 		return strconv.Quote(r.Re.Pattern())
-	case "id":
+	case "id", "tref":
 		return strconv.Quote(r.S)
 	case "name":
 		return r.S // @enumName, unquoted
@@ -301,16 +327,16 @@ func (r *renderer) node(n Node, path string, depth int, tail string) {
 		for i, p := range n.Props {
 			r.sb.WriteString(r.nl + ind)
 			if p.Sc {
-				r.sb.WriteString(p.K)
+				r.sb.WriteString(p.Kt)
 			} else {
-				r.sb.WriteString(quoteKey(p.K))
+				r.sb.WriteString(quoteKey(string(p.K)))
 			}
 			r.sb.WriteString(": ")
 			t := ","
 			if i == len(n.Props)-1 {
 				t = ""
 			}
-			r.node(p.N, path+"/"+p.K, depth+1, t)
+			r.node(p.N, path+"/"+string(p.K)+p.Kt, depth+1, t)
 		}
 		r.sb.WriteString(r.nl + strings.Repeat(r.indent, depth) + "}" + tail)
 	} else {
